@@ -750,6 +750,53 @@ func TestC19(t *testing.T) {
 			c.Fail(ev.Sig{"op": "bubble-leak"}, nil, nil, "goroutines left blocked: %s", leak)
 		}
 	})
+	// the association ends in the middle of a message of one stream while a complete message of
+	// another stream has already been received (and set aside by the reader, which is busy
+	// completing the first): it was received before the end, it is not lost
+	rec.Suite("ends-inside-a-message-of-another-stream", 6, func(c *ev.Case) {
+		withEOF := c.I%2 == 0
+		bodyB := []int{0, 12, 100}[c.I/2]
+		c.Class("ends-inside-a-message-of-another-stream/eof=%v/body=%d", withEOF, bodyB)
+		leak := runBubbleWD(t, rec, c, 60*time.Second, func() {
+			assoc := sctpmem.New()
+			msc := diam.VerifNewSCTPConn(assoc)
+			defer diam.VerifRelease(msc)
+			var mu sync.Mutex
+			var seen []uint32
+			conn, err := diam.NewConn(msc, "peer", diam.HandlerFunc(func(dc diam.Conn, m *diam.Message) {
+				mu.Lock()
+				seen = append(seen, m.Header.HopByHopID)
+				mu.Unlock()
+			}), ctx.Parser)
+			if err != nil {
+				c.Fail(ev.Sig{"op": "setup"}, nil, nil, "NewConn: %v", err)
+				return
+			}
+			a := seqMsg(0x10001, 100)
+			b := seqMsg(0x20001, bodyB)
+			assoc.Feed(1, a[:40]) // the header of A and the beginning of its body
+			assoc.Feed(2, b)      // all of B
+			synctest.Wait()
+			if withEOF {
+				assoc.FeedEOF()
+			} else {
+				assoc.FeedErr(errors.New("connection reset by peer"))
+			}
+			synctest.Wait()
+			mu.Lock()
+			got := append([]uint32(nil), seen...)
+			mu.Unlock()
+			if len(got) != 1 || got[0] != 0x20001 {
+				c.Fail(ev.Sig{"op": "per-stream-order", "how": "ends-inside-a-message-of-another-stream"}, b, nil, "stream 1 carried 40 of the 120 bytes of a message, stream 2 a complete %d-byte message, then the association ended (EOF=%v): delivered %x, expected the complete message 20001 of stream 2", len(b), withEOF, got)
+			}
+			conn.Close()
+			synctest.Wait()
+			c.Event("merges", 1)
+		})
+		if leak != "" && !c.Failed() {
+			c.Fail(ev.Sig{"op": "bubble-leak"}, nil, nil, "goroutines left blocked: %s", leak)
+		}
+	})
 	// replies the library builds itself: a state machine's CEA and DWA (and an application answer)
 	// for requests that arrive on different streams of one association
 	dctx := defCtx(t)
